@@ -181,6 +181,138 @@ def variant_names(prog, adt):
     return {v["idx"]: v["name"] for v in a["variants"]}
 
 
+def fixedstruct_window(prog, rep, rid):
+    """R3.2(b)/R8.3: accept table and skip set of FixedStructReader::preprocess_timevalues"""
+    # ---------------- R3.2 (b) fixedstruct reader: direct comparisons in the prefilter loop
+    pb = prog.body("s4lib::readers::fixedstructreader::FixedStructReader::preprocess_timevalues")
+    tvcalls = [cc for cc in pb.live_calls() if cc.d.endswith("::tv_pair_from_buffer")]
+    inserts = [cc for cc in pb.live_calls() if "BTreeMap" in cc.d and cc.d.endswith("::insert")]
+    if len(tvcalls) != 1 or len(inserts) != 1:
+        raise CheckerError("preprocess_timevalues: %d time-value reads, %d index inserts" % (len(tvcalls), len(inserts)))
+    tvc, ins = tvcalls[0], inserts[0]
+
+    loop_headers = set(h for (_, h) in pb.back_edges())
+    if not loop_headers:
+        raise CheckerError("preprocess_timevalues: no record-scan loop found")
+
+    def end_of(bb):
+        if bb == ins.bb:
+            return "insert"
+        if bb in loop_headers:
+            return "next"
+        if pb.term(bb)[0] == "ret":
+            return "ret"
+        return None
+
+    paths = enumerate_paths(pb, tvc.target, end_of, opaque_ok=None)
+    tv_root = None
+    conv = {}
+    for cc in pb.live_calls():
+        if cc.d.endswith("convert_datetime_tvpair"):
+            roles = role_of_operand(pb, cc.args[0])
+            if len(roles) == 1:
+                conv[cc.bb] = next(iter(roles))
+
+    def classify_root(root):
+        if root[0] == "call" and root[1] == "tv_pair_from_buffer":
+            return "T"
+        if root[0] == "call" and root[1] == "convert_datetime_tvpair":
+            return conv.get(root[2])
+        if root[0] == "const":
+            return "ZERO"
+        return None
+
+    def shape_role(root):
+        # Option local holding a converted bound: find its Some payload
+        if root[0] == "local":
+            l = root[1]
+            o = pb.origins(["cp", [l, ["as", "Some", 1], [".", 0, "0"]]])
+            rs = set()
+            for x in o:
+                cr = decide.canon_root(pb, x)
+                r = classify_root(cr)
+                if r:
+                    rs.add(r)
+            if len(rs) == 1:
+                return next(iter(rs))
+        if root[0] == "call" and root[1] == "tv_pair_from_buffer":
+            return "TVOPT"
+        return None
+
+    table = {}
+    domain = [(sa, sb, ra, rb) for sa in (0, 1) for sb in (0, 1) for (ra, rb) in RELS]
+    for key in domain:
+        sa, sb, ra, rb = key
+        outs = set()
+        for p in paths:
+            ok = True
+            for d in p.decisions:
+                if d[0] == "cmp":
+                    _, op, x, y, outcome = d
+                    rx, ry = classify_root(x), classify_root(y)
+                    if "ZERO" in (rx, ry):
+                        # the null-record test: a real record is not (0,0)
+                        truth_if_nonnull = (op == "ne")
+                        if outcome != truth_if_nonnull:
+                            ok = False
+                            break
+                        continue
+                    if rx == "T" and ry == "T":
+                        continue  # out-of-order accounting against the previous record: free
+                    if (rx, ry) == ("T", "A"):
+                        rel = ra
+                    elif (rx, ry) == ("A", "T"):
+                        rel = decide.FLIP_REL[ra]
+                    elif (rx, ry) == ("T", "B"):
+                        rel = rb
+                    elif (rx, ry) == ("B", "T"):
+                        rel = decide.FLIP_REL[rb]
+                    else:
+                        raise CheckerError("preprocess_timevalues: comparison between %r and %r not recognised" % (x, y))
+                    if (rel in decide.TRUTH[op]) != outcome:
+                        ok = False
+                        break
+                elif d[0] in ("variant", "variant_not"):
+                    r = shape_role(d[1])
+                    if r == "TVOPT":
+                        # precondition: the time value was decoded (Some)
+                        some = (d[0] == "variant" and d[2] == 1) or (d[0] == "variant_not" and 1 not in d[2])
+                        if not some:
+                            ok = False
+                            break
+                        continue
+                    if r is None or r == "T":
+                        # Option<previous record's time>: free (out-of-order accounting only)
+                        continue
+                    shape = {"A": sa, "B": sb}[r]
+                    if d[0] == "variant" and shape != d[2]:
+                        ok = False
+                        break
+                    if d[0] == "variant_not" and shape in d[2]:
+                        ok = False
+                        break
+                else:
+                    raise CheckerError("preprocess_timevalues: decision %r not recognised" % (d,))
+            if ok:
+                outs.add("insert" if p.end == "insert" else "skip")
+        table[key] = outs
+        want = "insert" if spec_dt2(sa, sb, ra, rb) == "InRange" else "skip"
+        inst = "%s|%s" % (pb.path, key)
+        rep.examined(rid, inst, sample={"site": pb.path, "A": sa, "B": sb, "t?A": ra, "t?B": rb, "effect": sorted(outs), "spec": want})
+        if outs != {want}:
+            rep.violation(rid, pb.path + "|accept", "%s: a non-null record with A=%s B=%s t%sA t%sB is %s, the window requires %s" % (
+                pb.path, "Some" if sa else "None", "Some" if sb else "None", ra, rb, sorted(outs), want))
+    if set(conv.values()) != {"A", "B"}:
+        rep.violation(rid, pb.path + "|bounds", "%s: the two converted bounds derive from %s, expected one from the after and one from the before filter" % (pb.path, sorted(conv.values())))
+    # the scan must not stop early at a record past the window: no path from the loop body returns
+    for p in paths:
+        if p.end == "ret":
+            rep.violation(rid, pb.path + "|early-stop", "%s: the prefilter loop can return from inside the record scan (records may be out of order; all must be scanned)" % pb.path)
+            break
+
+    return pb, ins, tvc, paths
+
+
 def run(prog, rep, tier):
     facts = prog.facts
     R31 = rep.rule("R3.1", "window predicate tables (Option shapes x orderings, exhaustive)")
@@ -317,132 +449,7 @@ def run(prog, rep, tier):
                         fb.reaches(true_t, bi[0].bb, {false_t}) or fb.reaches(false_t, lin[0].bb, {true_t}):
                     rep.violation(R33, fb.path + "|selector", "%s: streamed files must use the linear search and plain files the binary search" % fb.path)
 
-    # ---------------- R3.2 (b) fixedstruct reader: direct comparisons in the prefilter loop
-    pb = prog.body("s4lib::readers::fixedstructreader::FixedStructReader::preprocess_timevalues")
-    tvcalls = [cc for cc in pb.live_calls() if cc.d.endswith("::tv_pair_from_buffer")]
-    inserts = [cc for cc in pb.live_calls() if "BTreeMap" in cc.d and cc.d.endswith("::insert")]
-    if len(tvcalls) != 1 or len(inserts) != 1:
-        raise CheckerError("preprocess_timevalues: %d time-value reads, %d index inserts" % (len(tvcalls), len(inserts)))
-    tvc, ins = tvcalls[0], inserts[0]
-
-    loop_headers = set(h for (_, h) in pb.back_edges())
-    if not loop_headers:
-        raise CheckerError("preprocess_timevalues: no record-scan loop found")
-
-    def end_of(bb):
-        if bb == ins.bb:
-            return "insert"
-        if bb in loop_headers:
-            return "next"
-        if pb.term(bb)[0] == "ret":
-            return "ret"
-        return None
-
-    paths = enumerate_paths(pb, tvc.target, end_of, opaque_ok=None)
-    tv_root = None
-    conv = {}
-    for cc in pb.live_calls():
-        if cc.d.endswith("convert_datetime_tvpair"):
-            roles = role_of_operand(pb, cc.args[0])
-            if len(roles) == 1:
-                conv[cc.bb] = next(iter(roles))
-
-    def classify_root(root):
-        if root[0] == "call" and root[1] == "tv_pair_from_buffer":
-            return "T"
-        if root[0] == "call" and root[1] == "convert_datetime_tvpair":
-            return conv.get(root[2])
-        if root[0] == "const":
-            return "ZERO"
-        return None
-
-    def shape_role(root):
-        # Option local holding a converted bound: find its Some payload
-        if root[0] == "local":
-            l = root[1]
-            o = pb.origins(["cp", [l, ["as", "Some", 1], [".", 0, "0"]]])
-            rs = set()
-            for x in o:
-                cr = decide.canon_root(pb, x)
-                r = classify_root(cr)
-                if r:
-                    rs.add(r)
-            if len(rs) == 1:
-                return next(iter(rs))
-        if root[0] == "call" and root[1] == "tv_pair_from_buffer":
-            return "TVOPT"
-        return None
-
-    table = {}
-    domain = [(sa, sb, ra, rb) for sa in (0, 1) for sb in (0, 1) for (ra, rb) in RELS]
-    for key in domain:
-        sa, sb, ra, rb = key
-        outs = set()
-        for p in paths:
-            ok = True
-            for d in p.decisions:
-                if d[0] == "cmp":
-                    _, op, x, y, outcome = d
-                    rx, ry = classify_root(x), classify_root(y)
-                    if "ZERO" in (rx, ry):
-                        # the null-record test: a real record is not (0,0)
-                        truth_if_nonnull = (op == "ne")
-                        if outcome != truth_if_nonnull:
-                            ok = False
-                            break
-                        continue
-                    if rx == "T" and ry == "T":
-                        continue  # out-of-order accounting against the previous record: free
-                    if (rx, ry) == ("T", "A"):
-                        rel = ra
-                    elif (rx, ry) == ("A", "T"):
-                        rel = decide.FLIP_REL[ra]
-                    elif (rx, ry) == ("T", "B"):
-                        rel = rb
-                    elif (rx, ry) == ("B", "T"):
-                        rel = decide.FLIP_REL[rb]
-                    else:
-                        raise CheckerError("preprocess_timevalues: comparison between %r and %r not recognised" % (x, y))
-                    if (rel in decide.TRUTH[op]) != outcome:
-                        ok = False
-                        break
-                elif d[0] in ("variant", "variant_not"):
-                    r = shape_role(d[1])
-                    if r == "TVOPT":
-                        # precondition: the time value was decoded (Some)
-                        some = (d[0] == "variant" and d[2] == 1) or (d[0] == "variant_not" and 1 not in d[2])
-                        if not some:
-                            ok = False
-                            break
-                        continue
-                    if r is None or r == "T":
-                        # Option<previous record's time>: free (out-of-order accounting only)
-                        continue
-                    shape = {"A": sa, "B": sb}[r]
-                    if d[0] == "variant" and shape != d[2]:
-                        ok = False
-                        break
-                    if d[0] == "variant_not" and shape in d[2]:
-                        ok = False
-                        break
-                else:
-                    raise CheckerError("preprocess_timevalues: decision %r not recognised" % (d,))
-            if ok:
-                outs.add("insert" if p.end == "insert" else "skip")
-        table[key] = outs
-        want = "insert" if spec_dt2(sa, sb, ra, rb) == "InRange" else "skip"
-        inst = "%s|%s" % (pb.path, key)
-        rep.examined(R32, inst, sample={"site": pb.path, "A": sa, "B": sb, "t?A": ra, "t?B": rb, "effect": sorted(outs), "spec": want})
-        if outs != {want}:
-            rep.violation(R32, pb.path + "|accept", "%s: a non-null record with A=%s B=%s t%sA t%sB is %s, the window requires %s" % (
-                pb.path, "Some" if sa else "None", "Some" if sb else "None", ra, rb, sorted(outs), want))
-    if set(conv.values()) != {"A", "B"}:
-        rep.violation(R32, pb.path + "|bounds", "%s: the two converted bounds derive from %s, expected one from the after and one from the before filter" % (pb.path, sorted(conv.values())))
-    # the scan must not stop early at a record past the window: no path from the loop body returns
-    for p in paths:
-        if p.end == "ret":
-            rep.violation(R32, pb.path + "|early-stop", "%s: the prefilter loop can return from inside the record scan (records may be out of order; all must be scanned)" % pb.path)
-            break
+    fixedstruct_window(prog, rep, R32)
 
     # ---------------- R3.2 (c) evtx reader
     eb = prog.body("s4lib::readers::evtxreader::EvtxReader::analyze")
